@@ -482,9 +482,166 @@ func vC07JoseJsonSubset(jwe bool) func(r *vRng) []byte {
 	}
 }
 
+// ---- well-formed objects whose members are individually valid but mutually inconsistent with the
+// key the recipient holds: produced by the library's own Encrypter / Signer for every algorithm
+// and every key (EC keys on all three curves, RSA, symmetric keys of every size), optionally with
+// the epk replaced by a valid EC JWK of another curve (public, or with the private part present),
+// odd apu/apv/p2s/p2c, zip and crit; the decoders below then try EVERY key on every object. ----
+var vC07EcKeys = []*ecdsa.PrivateKey{vC07Ec256, vC07Ec384, vC07Ec521}
+
+func vC07EpkOf(k *ecdsa.PrivateKey, private bool) map[string]interface{} {
+	n := (k.Curve.Params().BitSize + 7) / 8
+	pad := func(x *big.Int) string {
+		b := x.Bytes()
+		return vC07B64(append(make([]byte, n-len(b)), b...))
+	}
+	m := map[string]interface{}{"kty": "EC", "crv": k.Curve.Params().Name, "x": pad(k.X), "y": pad(k.Y)}
+	if private {
+		m["d"] = pad(k.D)
+	}
+	return m
+}
+
+func vC07JweByLibrary(r *vRng) (out []byte) {
+	defer func() {
+		if recover() != nil {
+			out = vC07Jwe(r) // the generator must never take the harness down
+		}
+	}()
+	old := randReader
+	randReader = vC07Rand{r}
+	defer func() { randReader = old }()
+	alg := KeyAlgorithm(r.pickStr("RSA1_5", "RSA-OAEP", "RSA-OAEP-256", "A128KW", "A192KW", "A256KW", "dir", "ECDH-ES", "ECDH-ES", "ECDH-ES+A128KW",
+		"ECDH-ES+A192KW", "ECDH-ES+A256KW", "A128GCMKW", "A192GCMKW", "A256GCMKW"))
+	enc := ContentEncryption(vC07Encs[r.intn(6)])
+	var key interface{}
+	switch {
+	case strings.HasPrefix(string(alg), "RSA"):
+		key = &vC07Rsa.PublicKey
+	case strings.HasPrefix(string(alg), "ECDH"):
+		key = &vC07EcKeys[r.intn(3)].PublicKey
+	case alg == "dir":
+		key = vC07Sym[:vC07CekSize(string(enc))]
+	default:
+		key = vC07Sym[:vC07KwSize(string(alg))]
+	}
+	e, err := NewEncrypter(alg, enc, key)
+	if err != nil {
+		return vC07Jwe(r)
+	}
+	if r.chance(1, 4) {
+		e.SetCompression(DEFLATE)
+	}
+	obj, err := e.EncryptWithAuthData(vC07Lens(r, 0, 1, 16, 100), vC07Lens(r, 0, 0, 5))
+	if err != nil {
+		return vC07Jwe(r)
+	}
+	full := obj.FullSerialize()
+	if r.chance(1, 3) {
+		if c, err := obj.CompactSerialize(); err == nil {
+			return []byte(c)
+		}
+	}
+	if r.chance(1, 2) {
+		return []byte(full)
+	}
+	// re-open the JSON form and make the header inconsistent (the protected header is re-encoded,
+	// so the content no longer authenticates: what matters is what happens BEFORE that is noticed)
+	var m map[string]interface{}
+	if json.Unmarshal([]byte(full), &m) != nil {
+		return []byte(full)
+	}
+	hdr := map[string]interface{}{}
+	if p, ok := m["protected"].(string); ok {
+		if b, err := base64.RawURLEncoding.DecodeString(p); err == nil {
+			json.Unmarshal(b, &hdr)
+		}
+	}
+	for i, n := 0, r.rng(1, 3); i < n; i++ {
+		switch r.intn(9) {
+		case 0, 1, 2:
+			hdr["epk"] = vC07EpkOf(vC07EcKeys[r.intn(3)], r.chance(1, 4))
+		case 3:
+			hdr["alg"] = r.pickStr(vC07KeyAlgs...)
+		case 4:
+			hdr["enc"] = r.pickStr(vC07Encs...)
+		case 5:
+			hdr["apu"], hdr["apv"] = vC07B64(vC07Lens(r, 0, 1, 3, 64)), vC07B64(vC07Lens(r, 0, 1, 3, 64))
+		case 6:
+			hdr["p2s"], hdr["p2c"] = vC07B64(vC07Lens(r, 0, 1, 7, 8, 33)), r.pickInt(0, 1, 1000, 2147483647, -1)
+		case 7:
+			hdr["zip"] = r.pickStr("DEF", "GZ", "")
+		default:
+			hdr["crit"] = []interface{}{r.pickStr("exp", "b64", "")}
+		}
+	}
+	nb, _ := json.Marshal(hdr)
+	m["protected"] = vC07B64(nb)
+	if strings.HasPrefix(fmt.Sprint(hdr["alg"]), "ECDH-ES") && hdr["alg"] != "ECDH-ES" && r.chance(1, 2) {
+		m["encrypted_key"] = vC07B64(vC07Lens(r, 24, 32, 40))
+	}
+	res, _ := json.Marshal(m)
+	return res
+}
+
+func vC07JwsByLibrary(r *vRng) (out []byte) {
+	defer func() {
+		if recover() != nil {
+			out = vC07Jws(r)
+		}
+	}()
+	old := randReader
+	randReader = vC07Rand{r}
+	defer func() { randReader = old }()
+	alg := SignatureAlgorithm(vC07SigAlgs[r.intn(12)])
+	var key interface{}
+	switch {
+	case strings.HasPrefix(string(alg), "HS"):
+		key = vC07Sym[:r.pickInt(1, 16, 32, 48, 64)]
+	case alg == "ES256":
+		key = vC07Ec256
+	case alg == "ES384":
+		key = vC07Ec384
+	case alg == "ES512":
+		key = vC07Ec521
+	default:
+		key = vC07Rsa
+	}
+	sg, err := NewSigner(alg, key)
+	if err != nil {
+		return vC07Jws(r)
+	}
+	obj, err := sg.Sign(vC07Lens(r, 0, 1, 20, 200))
+	if err != nil {
+		return vC07Jws(r)
+	}
+	if r.chance(1, 2) {
+		if c, err := obj.CompactSerialize(); err == nil {
+			// optionally claim another algorithm for the same signature bytes
+			if r.chance(1, 3) {
+				parts := strings.Split(c, ".")
+				parts[0] = vC07B64([]byte(`{"alg":"` + vC07SigAlgs[r.intn(12)] + `"}`))
+				c = strings.Join(parts, ".")
+			}
+			return []byte(c)
+		}
+	}
+	return []byte(obj.FullSerialize())
+}
+
+// every key a recipient / verifier might hold
+func vC07AllDecryptKeys() []interface{} {
+	return []interface{}{vC07Rsa, vC07Ec256, vC07Ec384, vC07Ec521, vC07Sym[:16], vC07Sym[:24], vC07Sym[:32], vC07Sym[:48], vC07Sym[:64], vC07Sym[:15], vC07Sym[:0],
+		&JsonWebKey{Key: vC07Ec384}, &JsonWebKey{Key: vC07Sym[:16]}}
+}
+func vC07AllVerifyKeys() []interface{} {
+	return []interface{}{&vC07Rsa.PublicKey, &vC07Ec256.PublicKey, &vC07Ec384.PublicKey, &vC07Ec521.PublicKey, vC07Sym[:1], vC07Sym[:16], vC07Sym[:32], vC07Sym[:48], vC07Sym[:64],
+		&JsonWebKey{Key: &vC07Ec521.PublicKey}}
+}
+
 func TestVerifC07Jose(t *testing.T) {
 	decs := []*vC07Dec{
-		{name: "jose.jwe", gen: vC07Mix(vC07Jwe, vC07JoseJsonSubset(true)), run: func(b []byte) bool {
+		{name: "jose.jwe", gen: vC07Mix(vC07Mix(vC07Jwe, vC07JweByLibrary), vC07JoseJsonSubset(true)), run: func(b []byte) bool {
 			obj, err := ParseEncrypted(string(b))
 			if err != nil {
 				return true
@@ -503,7 +660,7 @@ func TestVerifC07Jose(t *testing.T) {
 			}
 			return e1 != nil && e2 != nil && e3 != nil && e4 != nil && e5 != nil
 		}},
-		{name: "jose.jws", gen: vC07Mix(vC07Jws, vC07JoseJsonSubset(false)), run: func(b []byte) bool {
+		{name: "jose.jws", gen: vC07Mix(vC07Mix(vC07Jws, vC07JwsByLibrary), vC07JoseJsonSubset(false)), run: func(b []byte) bool {
 			obj, err := ParseSigned(string(b))
 			if err != nil {
 				return true
@@ -520,6 +677,32 @@ func TestVerifC07Jose(t *testing.T) {
 			_ = obj.FullSerialize()
 			_, _ = obj.CompactSerialize()
 			return e1 != nil && e2 != nil && e3 != nil && e4 != nil && e5 != nil
+		}},
+		{name: "jose.jwe.allkeys", gen: vC07JweByLibrary, run: func(b []byte) bool {
+			obj, err := ParseEncrypted(string(b))
+			if err != nil {
+				return true
+			}
+			ok := false
+			for _, k := range vC07AllDecryptKeys() {
+				if _, err := obj.Decrypt(k); err == nil {
+					ok = true
+				}
+			}
+			return !ok
+		}},
+		{name: "jose.jws.allkeys", gen: vC07JwsByLibrary, run: func(b []byte) bool {
+			obj, err := ParseSigned(string(b))
+			if err != nil {
+				return true
+			}
+			ok := false
+			for _, k := range vC07AllVerifyKeys() {
+				if _, err := obj.Verify(k); err == nil {
+					ok = true
+				}
+			}
+			return !ok
 		}},
 		{name: "jose.jwk", gen: vC07Mix(vC07Jwk, vC07JwkSubset), run: func(b []byte) bool {
 			var k JsonWebKey
